@@ -362,6 +362,65 @@ def strat_nested():
     return st.fixed_dictionaries({'tree': tree})
 
 
+# ---------------------------------------------------------------- mutated helper strings
+import re as _re
+_VAL = r'(?:0x[0-9a-fA-F]+|[0-9]+)'
+HELPER_GRAMMAR = _re.compile(r'^(?:fg_|bg_|ul_|dul_)?(?:rgb\([\[(]?%s(?:,%s,%s)?[\])]?\)|colou?r256\([\[(]?%s[\])]?\))$' % (_VAL, _VAL, _VAL, _VAL))
+
+
+def eval_mutated(case):
+    """a valid helper string with one or two characters inserted / appended / deleted (no blanks involved): unless the result is
+    again inside the documented syntax it must raise ValueError"""
+    o = Outcome()
+    base = case['base']
+    s_ = base
+    for pos, ch in case['edits']:
+        pos = pos % (len(s_) + 1)
+        if ch is None:
+            s_ = s_[:pos] + s_[pos + 1:]
+        else:
+            s_ = s_[:pos] + ch + s_[pos:]
+    if ' ' in s_ or ';' in s_ or s_ == '' or s_.startswith('['):
+        o.skipped = 'outside-mutation-alphabet'
+        return o
+    try:
+        AnsiFormat[s_.upper().replace('-', '_')]
+        o.skipped = 'became-a-name'
+        return o
+    except KeyError:
+        pass
+    if _re.fullmatch('[0-9]+', s_):
+        o.skipped = 'became-a-code'
+        return o
+    ok = bool(HELPER_GRAMMAR.match(s_))
+    for nm, fn in (('constructor', lambda: AnsiString('x', s_)), ('AnsiStr', lambda: AnsiStr('x', s_)),
+                   ('spec', lambda: format(AnsiString('x'), ':' + s_))):
+        try:
+            fn()
+            accepted = True
+        except ValueError:
+            accepted = False
+        except Exception as e:
+            if lib_frame(e)[0] != 'lib':
+                raise
+            o.fail('mutated-wrong-error', '%r via %s raised %s' % (s_, nm, type(e).__name__))
+            continue
+        if accepted and not ok:
+            o.fail('malformed-helper-accepted', '%r (from %r) accepted via %s' % (s_, base, nm))
+        if not accepted and ok:
+            o.fail('wellformed-helper-rejected', '%r (from %r) rejected via %s' % (s_, base, nm))
+    o.nontrivial = s_ != base
+    o.label('in-grammar' if ok else 'malformed')
+    return o
+
+
+def strat_mutated():
+    base = st.sampled_from(['rgb(1,2,3)', 'bg_rgb(0x10,32,99)', 'ul_rgb(0xABCDEF)', 'dul_rgb([1,2,3])', 'fg_rgb((7,8,9))', 'color256(17)',
+                            'bg_colour256(0x10)', 'ul_color256([5])', 'rgb(255,255,255)', 'dul_colour256(200)'])
+    edit = st.tuples(st.integers(0, 30), st.sampled_from(['x', ')', '(', ',', '1', 'g', ']', '[', '0', 'f', '_', None, None]))
+    return st.fixed_dictionaries({'base': base, 'edits': st.lists(edit, min_size=1, max_size=2).map(lambda l: [list(x) for x in l])})
+
+
 # ---------------------------------------------------------------- spellings inside a history
 HIST_NAMES = ['red', 'blue', 'bold', 'faint', 'underline', 'bg_red', 'orange', 'ul_red', 'no_bold_faint', 'fg_default']
 
@@ -425,6 +484,8 @@ BAD = [
     ('malformed-rgb', 'rgb(1,2)', ValueError), ('malformed-rgb', 'rgb()', ValueError), ('malformed-rgb', 'rgb(1,2,3,4)', ValueError),
     ('malformed-rgb', 'rgb(1,2,3', ValueError), ('malformed-rgb', 'rgb(ff,0,0)', ValueError), ('malformed-rgb', 'rgb(-1,2,3)', ValueError),
     ('malformed-rgb', 'xx_rgb(1,2,3)', ValueError), ('malformed-rgb', 'rgb(1;2;3)', ValueError), ('malformed-rgb', 'rgb(0x,1,2)', ValueError),
+    ('malformed-rgb', 'rgb(1,2,3)x', ValueError), ('malformed-rgb', 'rgb(1,2,3)rgb(4,5,6)', ValueError), ('malformed-rgb', 'xrgb(1,2,3)', ValueError),
+    ('malformed-rgb', 'bg_rgb(0x10)1', ValueError), ('malformed-color', 'bg_color256(17) bright', ValueError),
     ('malformed-color', 'color256(x)', ValueError), ('malformed-color', 'color256()', ValueError), ('malformed-color', 'colour256(1,2)', ValueError),
     ('malformed-color', 'color255(1)', ValueError), ('malformed-color', 'bg_color256(ff)', ValueError),
     ('type', 1.5, TypeError), ('type', [None], TypeError), ('type', object(), TypeError), ('type', b'red', TypeError),
@@ -508,6 +569,8 @@ SUBS = [
     Sub('codes', eval_code, enumerate=enum_codes, exhaustive_note='all SGR codes 0..255 as int/str/padded/verbatim'),
     Sub('helpers', eval_helper, strategy=strat_helper, quick=500, thorough=8000),
     Sub('nested', eval_nested, strategy=strat_nested, quick=500, thorough=8000),
+    Sub('mutated_helpers', eval_mutated, strategy=strat_mutated, quick=400, thorough=6000,
+        rule='valid rgb()/color256() strings with 1-2 characters inserted, appended or deleted, classified by an own grammar'),
     Sub('spelling_history', eval_history, strategy=strat_history, quick=500, thorough=8000,
         rule='2-6 apply/remove calls on nested ranges re-using 1-3 names in 12 spellings, compared with the same calls using AnsiFormat members'),
     Sub('errors', eval_error, enumerate=enum_errors, exhaustive_note='fixed table of invalid forms x 3 wrappings x 5 entry points'),
